@@ -14,7 +14,7 @@ def run(ctx):
     return driver.finish(
         ctx, "fault_enumeration",
         "one scenario per child process. Growth: after N1 and N2 finished logical connections (sequential with the application or the target closing first, "
-        "8 overlapping, mixed, connections for a channel the server refuses, connections whose application finishes at once (or once the flood towards it stands still) and never reads while the target floods: the target must see the end, and no copy loop may be left while the applications still hold their sockets; local connections made while the only upstream is down (each must be ended by the client; served ones before and after; two outages of different length compared), physical connections that never become sessions (the peer says nothing / half a request / the whole announce, shuts its sending side down and must see the connection closed), connections served from the listener's forward address where one side shuts its sending side down first and must then see the end of the connection, and connections for an OFFERED channel whose target cannot be reached (a reserved TCP port that refuses, a unix socket that does not exist, a target that is up, goes away and comes back; applications that wait, send a request and wait, give up at once, come 8 at a time, or hold their sockets without reading: each such connection must be ended by the tunnel, no copy loop may be left for it while the applications still hold their sockets, served connections on the other channel and on the returning target in between)) the probe vector {goroutines by socketace/smux/kcp function class, open descriptors after GC, copy loops outstanding (hook counters)} "
+        "8 overlapping, mixed (every third target-first life only shuts the target's sending side down: the application must see the end, and after it has finished the target must see its socket released by the server), connections for a channel the server refuses, connections whose application finishes at once (or once the flood towards it stands still) and never reads while the target floods: the target must see the end, and no copy loop may be left while the applications still hold their sockets; local connections made while the only upstream is down (each must be ended by the client; served ones before and after; two outages of different length compared), physical connections that never become sessions (the peer says nothing / half a request / the whole announce, shuts its sending side down and must see the connection closed), connections served from the listener's forward address where one side shuts its sending side down first and must then see the end of the connection, and connections for an OFFERED channel whose target cannot be reached (a reserved TCP port that refuses, a unix socket that does not exist, a target that is up, goes away and comes back; applications that wait, send a request and wait, give up at once, come 8 at a time, or hold their sockets without reading: each such connection must be ended by the tunnel, no copy loop may be left for it while the applications still hold their sockets, served connections on the other channel and on the returning target in between)) the probe vector {goroutines by socketace/smux/kcp function class, open descriptors after GC, copy loops outstanding (hook counters)} "
         "taken at a quiescent point (unchanged over 5 polls) may differ by at most 4. Session end: with two logical connections open and idle the physical session "
         "is ended by {client shutdown, relay FIN, relay RST, server side cut, client side cut, garbage to server, garbage to client, black-holed carrier (keep-alive "
         "timeout)}; within 75 s every session-attributable goroutine and copy loop must be gone and descriptors back to the baseline; then over a 3 s idle window the "
